@@ -38,6 +38,8 @@ def run_case(case):
         fn = _load(case["fn"])
         kwargs = case.get("kwargs", {})
         opts = case.get("opts", {})
+        if opts.get("concrete_jit"):
+            return _run_concrete_jit(case, t0)
         cx = core.Ctx(mode="sym", branch_timeout_ms=opts.get("branch_timeout_ms", 300),
                       check_timeout_ms=opts.get("check_timeout_ms", 60000),
                       max_paths=opts.get("max_paths", 200000))
@@ -151,6 +153,40 @@ def _run_pool(cases, jobs, verbose, default_case_timeout):
     return results
 
 
+def _run_concrete_jit(case, t0):
+    """a concrete witness executed against the REAL jitted code (NUMBA_DISABLE_JIT=0) in its own process: the only way
+    to observe behaviour that differs between numba's compiled semantics and the Python source"""
+    pid = case["pid"]
+    d = _empty_result(case)
+    rdir = os.path.join(ROOT, "replays", pid)
+    os.makedirs(rdir, exist_ok=True)
+    label = case["opts"].get("label", "D-JIT")
+    path = os.path.join(rdir, re.sub(r"[^A-Za-z0-9_.-]", "_", case["name"]) + "__jit.json")
+    json.dump(dict(property=pid, case=case, label=label, model={}, info="concrete witness on the jitted code"),
+              open(path, "w"), indent=1)
+    env = dict(os.environ)
+    env["NUMBA_DISABLE_JIT"] = "0"
+    env["NUMBA_CACHE_DIR"] = os.path.join(rdir, "numba_cache")
+    p = subprocess.run([sys.executable, "-m", "symx.runner", pid, "--replay", path], cwd=ROOT, env=env,
+                       capture_output=True, text=True, timeout=case["opts"].get("case_timeout_s", 1200))
+    out = p.stdout.strip().splitlines()
+    last = out[-1] if out else ""
+    d.update(paths=1, obligations=1, queries=0, wall_s=time.time() - t0, validated=1)
+    d["by_label"] = {label: dict(n=1, ok=0, sat=0, unknown=0)}
+    d["samples"] = [dict(case=case["name"], label=label, claim="concrete witness on the jitted code", info=last[:200])]
+    if last.startswith("NOT-REPRODUCED"):
+        d["discharged"] = 1
+        d["by_label"][label]["ok"] = 1
+    elif last.startswith("REPRODUCED"):
+        d["by_label"][label]["sat"] = 1
+        d["cex"] = [dict(label=label, model={}, info=last[:300], pre_replayed=True, reproduced=True, path=path)]
+    else:
+        d["error"] = "jit witness crashed: " + (p.stderr or p.stdout)[-1500:]
+    import shutil
+    shutil.rmtree(env["NUMBA_CACHE_DIR"], ignore_errors=True)
+    return d
+
+
 def _evalobs(m, v):
     import numpy as np
     from symx import core
@@ -249,6 +285,8 @@ def main(argv=None):
     cases = mod.cases(a.tier)
     if a.case:
         cases = [c for c in cases if re.search(a.case, c["name"])]
+    for c in cases:
+        c["pid"] = pid
     names = [c["name"] for c in cases]
     assert len(set(names)) == len(names), "duplicate case names"
     # longest first
@@ -260,6 +298,7 @@ def main(argv=None):
     replay_dir = os.path.join(ROOT, "replays", pid)
     n_replayed = 0
     to_replay = []
+    pre_replayed = []
     for r in results:
         cs = r["case"]
         opts = cs.get("opts", {})
@@ -289,6 +328,9 @@ def main(argv=None):
         if r["validation_mismatch"] and len(r["validation_mismatch"]) * 2 > max(1, nval):
             harness_errors.append(f"{r['name']}: lifted vs concrete mismatch {r['validation_mismatch'][0]}")
         for ci, cx in enumerate(r["cex"]):
+            if cx.get("pre_replayed"):
+                pre_replayed.append((cx["path"], r["name"], cx["label"], cx["info"]))
+                continue
             os.makedirs(replay_dir, exist_ok=True)
             fname = re.sub(r"[^A-Za-z0-9_.-]", "_", f"{r['name']}__{cx['label']}__{ci}") + ".json"
             path = os.path.join(replay_dir, fname)
@@ -322,6 +364,13 @@ def main(argv=None):
     from concurrent.futures import ThreadPoolExecutor
     with ThreadPoolExecutor(max_workers=8) as ex:
         replayed = list(ex.map(_replay, chosen))
+    for path, cname, lab, info in pre_replayed:
+        n_replayed += 1
+        k = match_known(known, cname, lab)
+        if k:
+            known_hits.append((k, cname, lab))
+        else:
+            violations.append((path, cname, lab, info))
     for (path, cname, lab, jit), last, err in replayed:
         n_replayed += 1
         if last.startswith("REPRODUCED"):
